@@ -363,9 +363,42 @@ def stream_grid(c, T):
     c.count('grid-concrete-values', nvals); c.count('grid-real-evaluations', nreal)
 
 
+def stream_corpus(c):
+    """past failures first: the minimal inputs of the two genuine defects of the pinned tree (fixed since; the signatures stay)"""
+    ev = lib()[0]
+    k = ev.constant
+    a = ev.Argument('a', (k(2),), int)
+    h = ev.Inflate(ev.InRange(a, k(4)), k(numpy.array([0, 0])), k(1))
+    A = dict(a=numpy.array([3, 3]))
+    lo, hi = h._intbounds
+    val = flat_ints(evaluate(h, A))
+    ok1 = all(lo <= v <= hi for v in val)
+    m = ev.Minimum(h, k(numpy.array([4])))
+    raw, simp = flat_ints(evaluate(m, A)), flat_ints(evaluate(m, A, simplify=True))
+    if not ok1 or raw != simp:
+        c.failing_input('intbounds-unsound:Inflate', 'Inflate with a repeated dof announces (%s, %s) but evaluates to %r; Minimum(that, 4) evaluates to %r raw and %r simplified' % (
+            snum(lo), snum(hi), val, raw, simp), dict(stream='corpus', case='inflate-duplicate-dofs', announced=[snum(lo), snum(hi)], value=val, minimum_raw=raw, minimum_simplified=simp))
+    n = ev.InRange(ev.Argument('n', (), int), k(6))
+    e = ev.Einsum((ev.InsertAxis(k(2), n), ev.InsertAxis(k(3), n)), ((0,), (0,)), ())
+    lo, hi = e._intbounds
+    bad = None
+    for nv in range(6):
+        v = flat_ints(evaluate(e, dict(n=numpy.array(nv))))[0]
+        if not lo <= v <= hi: bad = (nv, v); break
+    if bad:
+        c.failing_input('intbounds-unsound:Einsum', 'Einsum over an axis of length n in [0,5] announces (%s, %s) but evaluates to %d for n=%d' % (snum(lo), snum(hi), bad[1], bad[0]),
+                        dict(stream='corpus', case='einsum-variable-length', announced=[snum(lo), snum(hi)], n=bad[0], value=bad[1]))
+    c.case(('corpus', 'inflate'), True); c.case(('corpus', 'einsum'), True)
+    c.obligation('corpus:known-defects-stay-fixed', ok1 and raw == simp and not bad, 'correspondence', 'Inflate with repeated dofs, Einsum over a variable length')
+
+
 def run(c):
-    c.rule = ('grid: every class with an _intbounds_impl x exhaustive operand ranges over {-inf,-3..3,inf} (3+ operands: {-inf,-2..2,inf}, sampled); '
-              'a grid case is non-trivial when at least one concrete operand assignment inside the ranges has a defined result; distinct by (class, ranges)')
+    c.rule = ('grid: every class with an _intbounds_impl as a real node over range-carrying stubs x exhaustive operand ranges over {-inf,-3..3,inf}^2 '
+              '(3+ operands: {-inf,-2..2,inf}^2, sampled in the quick tier); non-trivial when at least one concrete operand assignment inside the ranges has a defined '
+              'result; distinct by (class, ranges).  consumers: the five range-consuming _simplified rules x the same grid, non-trivial when a rewrite fires.  '
+              'expr: random expressions of the Lean expression language (depth 1-4, loops, Take, RavelIndex, _SizesToOffsets, computed lengths) built as real DAGs, with '
+              'honest argument values; non-trivial when more than one node; distinct by tokens+values.  dag: random real DAGs over ~45 classes; one case per '
+              'integer sub-node (evaluated at every loop iteration), non-trivial when it has entries.  func: function.Array compositions on samples; one case per array.')
     c.assumptions += ['64-bit overflow of numpy integers is not modelled (Python ints are unbounded)',
                       'RavelIndex is used with ia >= 0 only (documented domain: ia indexes an axis of length na; all construction sites pass dofmaps, Range or x % n)']
     broken = c.build_and_audit()
@@ -383,6 +416,7 @@ def run(c):
             c.obligation('stream:' + name, False, 'correspondence', 'stream aborted by %s' % type(e).__name__)
             c.broken_no_input('stream:' + name, 'stream aborted by %s: %s' % (type(e).__name__, str(e)[:200]), dict(stream=name, traceback=tb[-3000:]))
         c.log(name + ' done')
+    guarded('corpus', stream_corpus)
     guarded('grid', lambda c: stream_grid(c, ops_table()))
     guarded('consumers', stream_consumers)
     guarded('expr', stream_expr)
@@ -595,7 +629,7 @@ def real_deps(node):
 def stream_expr(c):
     """(M2) model Expr vs real DAG: range, arguments, evaluated values, and the value preservation of `simplified`"""
     ev = lib()[0]
-    N = 250 if c.tier == 'quick' else 6000
+    N = 250 if c.tier == 'quick' else 5000
     reqs = []; meta = []
     ntry = 0
     while len(meta) < N and ntry < 20 * N:
@@ -823,6 +857,8 @@ class DagGen:
                         'inflate', 'inflate', 'range', 'ravelindex', 'offsets', 'searchsorted', 'argsort', 'find', 'loopsum', 'loopconcat', 'loopconcat', 'float', 'power',
                         'inrange', 'normdim', 'einsum', 'diagonalize', 'concat', 'minmaxconst', 'product', 'choose', 'poly'])
         a = pick(lambda n: n.dtype == int)
+        if loopidx and rng.random() < .7:   # inside a loop body: prefer operands that depend on the innermost index
+            a = pick(lambda n: n.dtype == int and loopidx[-1] in n.arguments) or a
         if a is None: return self.leaf(loopidx)
         if k == 'unary': return rng.choice([ev.Negative, ev.Absolute, ev.Sign])(a)
         if k == 'binary':
@@ -911,7 +947,7 @@ class DagGen:
             idx = ev.loop_index(lid, n)
             inner = list(loopidx) + [idx]
             body_pool = [idx] + [m for m in pool if rng.random() < .5][:6]
-            for _ in range(rng.randint(1, 4)):
+            for _ in range(rng.randint(2, 6)):
                 try:
                     body_pool.append(self.step(body_pool, inner))
                 except Exception:
@@ -997,7 +1033,7 @@ def bind_loops(node):
 
 def stream_dag(c):
     ev = lib()[0]
-    ndags = 40 if c.tier == 'quick' else 900
+    ndags = 40 if c.tier == 'quick' else 600
     stats = collections.Counter()
     nviol = collections.Counter()
     unexpected = []
@@ -1134,7 +1170,7 @@ def stream_dag(c):
 def stream_func(c):
     from nutils import mesh, function
     rng = c.rng
-    nrounds = 12 if c.tier == 'quick' else 250
+    nrounds = 12 if c.tier == 'quick' else 160
     kinds = {bool: 'b', int: 'i', float: 'f', complex: 'c'}
     nbad = collections.Counter(); nchecked = 0
     for iround in range(nrounds):
